@@ -3,6 +3,7 @@ import io
 import itertools
 from datetime import date, datetime
 from decimal import Decimal
+from fractions import Fraction
 
 from hypothesis import strategies as st
 
@@ -32,8 +33,8 @@ ASSUMPTIONS = [
 ]
 
 REPS = [None, True, 1, 1.5, 1j, "s", b"b", date(2020, 1, 2), datetime(2020, 1, 2, 3, 4), Decimal("1"),
-        OpaqueA(1), OpaqueB(1), [1], (1,), {"k": 1}]
-KINDS = [bool, int, float, complex, str, bytes, date, datetime, Decimal, OpaqueA, OpaqueB, list, tuple, dict, object]
+        OpaqueA(1), OpaqueB(1), [1], (1,), {"k": 1}, bytearray(b"b"), Fraction(1, 2)]
+KINDS = [bool, int, float, complex, str, bytes, date, datetime, Decimal, OpaqueA, OpaqueB, list, tuple, dict, object, bytearray, Fraction]
 
 
 def _dt(x):
